@@ -717,7 +717,11 @@ class Forcing(BaseForce):
         """Dummy function for backwards compatibility of IBMs"""
         values = self.variables[name]
         if len(values) != len(X):  # Dead particles were removed after update()
-            values = self.modules["state"][name]
+            if name in ["u", "v"]:
+                U, V = self.velocity(X, Y, Z)
+                values = U if name == "u" else V
+            else:
+                values = self.modules["state"][name]
         return values
 
 
